@@ -46,6 +46,11 @@ class Case(object):
 
 
 def _atoms(t, pol):
+    if isinstance(t, ast.Call) and isinstance(t.func, ast.Name) and t.func.id == 'bool' and len(t.args) == 1 \
+            and not t.keywords:
+        for x in _atoms(t.args[0], pol):        # bool(e) decides like e
+            yield x
+        return
     if isinstance(t, ast.UnaryOp) and isinstance(t.op, ast.Not):
         for x in _atoms(t.operand, not pol):
             yield x
@@ -638,3 +643,100 @@ def inline_stmt_helpers(fn, methods, selfname='self', depth=2):
     set_parents(new)
     new._parent = par
     return new
+
+
+def return_cases_inlined(fn, methods, selfname='self', **kw):
+    """return cases of `fn`; where the returned value is a call of a method of the same class
+    (`self.m(..)`), the case is replaced by m's own return cases with its parameters replaced by
+    the arguments and its branch decisions added -- a result-building helper is seen through"""
+    out = []
+    for cs in return_cases(fn, **kw):
+        v = resolve(cs.sub, cs.env)
+        m = None
+        if isinstance(v, ast.Call) and isinstance(v.func, ast.Attribute) and isinstance(v.func.value, ast.Name) and \
+                v.func.value.id in (selfname, 'cls') and v.func.attr in methods and not any(k.arg is None for k in v.keywords):
+            m = methods[v.func.attr]
+        if m is None:
+            out.append(cs)
+            continue
+        params = [a.arg for a in m.args.args]
+        is_static = any(isinstance(d, ast.Name) and d.id == 'staticmethod' for d in m.decorator_list)
+        if not is_static and params and params[0] in (selfname, 'cls'):
+            params = params[1:]
+        ren = dict(zip(params, v.args))
+        ren.update((k.arg, k.value) for k in v.keywords if k.arg)
+        try:
+            inner = return_cases(m, **kw)
+        except TooManyPaths:
+            out.append(cs)
+            continue
+        for ic in inner:
+            c2 = Case(list(cs.conds) + [(subst(t, ren), p) for t, p in ic.conds], cs.node, subst(ic.sub, ren),
+                      dict(cs.env), 'return')
+            out.append(c2)
+    return out
+
+
+def const_truth(t):
+    """truth value of a comparison between constants (==, !=, in, not in, is, is not over constants and displays of
+    constants), or None when `t` is not such a closed expression"""
+    if isinstance(t, ast.Constant):
+        return bool(t.value)
+    if not (isinstance(t, ast.Compare) and len(t.ops) == 1):
+        return None
+
+    def val(e):
+        if isinstance(e, ast.Constant):
+            return True, e.value
+        if isinstance(e, (ast.Tuple, ast.List, ast.Set)) and all(isinstance(x, ast.Constant) for x in e.elts):
+            return True, tuple(x.value for x in e.elts)
+        return False, None
+    (ok1, a), (ok2, b) = val(t.left), val(t.comparators[0])
+    if not (ok1 and ok2):
+        return None
+    op = t.ops[0]
+    try:
+        if isinstance(op, (ast.Eq, ast.Is)):
+            return a == b
+        if isinstance(op, (ast.NotEq, ast.IsNot)):
+            return a != b
+        if isinstance(op, ast.In):
+            return a in b
+        if isinstance(op, ast.NotIn):
+            return a not in b
+    except TypeError:
+        return None
+    return None
+
+
+def infeasible(conds, assume=None):
+    """True when the path conditions contain a closed comparison whose value contradicts the polarity the path took --
+    after replacing the expressions named in `assume` ({source text: constant}) by their constants.  (A symbolic walker
+    forks on every test; this prunes the forks that no run can take.)"""
+    env = {}
+    for k, v in (assume or {}).items():
+        env[k] = ast.Constant(value=v)
+    for t, pol in conds:
+        for a, ap in _atoms(t, pol):
+            a2 = a
+            if env:
+                a2 = _AssumeSubst(env).visit(clone(a))
+            tv = const_truth(a2)
+            if tv is not None and tv != ap:
+                return True
+    return False
+
+
+class _AssumeSubst(ast.NodeTransformer):
+    def __init__(self, env):
+        self.env = env
+
+    def generic_visit(self, node):
+        if isinstance(node, ast.expr):
+            try:
+                txt = ast.unparse(node)
+            except Exception:
+                txt = None
+            if txt in self.env:
+                return self.env[txt]
+        return super().generic_visit(node)
